@@ -161,7 +161,7 @@ ASSUMPTIONS = ['per-species cross-sections opacity(T_l, P_l, wn), cia(T_l, wn) a
                '(what the density, the mean molecular weight and the stored output use); which row get_gas_mix_profile hands to '
                'the contributions is modelled (MixLookup.gasMix), and so are the tables of a chemistry wrapped with MakeFreeMixin '
                '(MixLookup.freedActive / freedInactive: free profile replaces the wrapped row, new molecules appended, all '
-               'divided by the column sum); the mean molecular weight of such a chemistry is NOT judged here (TODO bucket)',
+               'divided by the column sum); the mean molecular weight of such a chemistry is judged against MixLookup.muOf on the published tables',
                'np.interp onto the native grid for species tabulated on another grid (inside Opacity.opacity)',
                'licensed deviation of C01 (tau>10 early exit): a row may differ from the product only if every '
                'wavenumber of the returned row is below exp(-10) and not below the product',
@@ -310,6 +310,8 @@ def make_free_file(rng, spec):
     nl = spec['nlayers']
     mols = [g['mol'] for g in spec['gases']]
     infile = [m for m in mols if rng.random() < 0.65] or [mols[int(rng.integers(0, len(mols)))]]
+    if rng.random() < 0.3:
+        infile = []          # quota: the wrapped chemistry has NO absorbing molecule of its own (every absorber is a new free gas)
     x = np.linspace(0.0, 1.0, nl)
     cols = {}
     for m in infile:
@@ -507,6 +509,32 @@ def chemistry_checks(ctx, m, spec):
                         np.ravel([x[1] for x in mact]), sm, rel=1e-12)
         ctx.check_close('MakeFreeMixin.inactiveGasMixProfile vs MixLookup.freedInactive', np.ravel(I),
                         np.ravel([x[1] for x in mina]), sm, rel=1e-12)
+    # the mean molecular weight (-> scale height -> every chord) of the freed chemistry is the weight of the mixture it
+    # PUBLISHES: MixLookup.muOf on the published tables (mismatch), then the relation itself on the real code.  On the pinned
+    # tree mu came from the wrapped chemistry's own table: a molecule of the file freed to zero still weighed in (repaired in
+    # /repo, DESIGN §6; reproducer findings/c03_makefree_zero_abundance.py)
+    from taurex.util.util import get_molecular_weight
+    masses = [(g, float(get_molecular_weight(g))) for g in act + ina]
+    dm = ctx.model().call('c03.mu', C.N(n), _enc_table(act, A), _enc_table(ina, I),
+                          C.L(masses, lambda q: C.S(q[0]) + ' ' + C.F(q[1])))
+    mu_impl = np.asarray(chem.muProfile, float)
+    ctx.check_close('MakeFreeMixin.muProfile vs MixLookup.muOf on the published tables', mu_impl, np.array(dm.list()), sm,
+                    rel=1e-12)
+    mu_doc = sum(np.asarray(r, float) * w for r, (_, w) in zip(A + I, masses))
+    ctx.bucket('makefree:mu-judged')
+    ctx.bucket('makefree:wrapped-chemistry-has-%s-absorbing-molecule' % ('an' if bact else 'no'))
+    # "weighted by that species' mixing ratio": the published rows are fractions of ONE mixture (they sum to one in every
+    # layer).  On the pinned tree the rows of new absorbing molecules were left un-normalised when the wrapped chemistry has
+    # no absorbing molecule of its own (repaired in /repo; reproducer findings/c03_makefree_unnormalised_new_active.py)
+    tot = np.sum(A + I, axis=0)
+    if not C.close(tot, np.ones(n), rel=1e-12, abs_=0.0):
+        ctx.violation('makefree-mixture-not-normalised', 'the mixing ratios a makefree chemistry publishes do not sum to '
+                      'one in every layer', spec, dict(total=tot[:4], gases=act + ina))
+    if mu_impl.shape != np.shape(mu_doc) or not C.close(mu_impl, mu_doc, rel=1e-10, abs_=0.0):
+        ctx.violation('makefree-mu-not-of-published-mixture', 'mean molecular weight of a makefree chemistry is not the '
+                      'ratio-weighted sum of the molecular masses of the mixture it publishes (a freed species keeps '
+                      'another abundance in mu)', spec, dict(mu=mu_impl[:4], weight_of_published_mixture=np.asarray(mu_doc)[:4],
+                                                             gases=act + ina))
 
 
 def eval_case(ctx, spec, extras=True):
@@ -951,14 +979,6 @@ def zero_gas_checks(ctx, spec, m, wn, trans, depth):
                 break
         contrib.prepare(m, wn)
     if not zero_layers.all():
-        return
-    if spec.get('chem_kind') == 'makefree-file' and mol in spec['chem_file']['gases']:
-        # TODO (genuine /repo defect, reported; belongs to the composition / structure properties C10 / C11): the mean
-        # molecular weight of a chemistry wrapped with MakeFreeMixin is computed from the WRAPPED chemistry's own table
-        # (MakeFreeMixin.compute_mu_profile -> AutoChemistry.compute_mu_profile reads self.mixProfile = the file): a molecule of
-        # the file freed to zero still weighs in with the file's abundance, so the scale height - and with it the spectrum -
-        # differs from the atmosphere without the molecule although no opacity differs.  Not judged here.
-        ctx.bucket('TODO:makefree-mu-from-unfreed-table:zero-vs-absent-not-judged')
         return
     s2 = without_gas(spec, mol)
     if not s2['opacities']:
